@@ -11,7 +11,7 @@ CASE_TIMEOUT = 10
 NREGS = 3
 RULE = ('cases: histories of 1-12 public table operations over 3 registers (integer column names (d[0]=v, update({0: v}), dictable({0: ..}), records / d + {0: ..}: stored as "0"); assignment as d[k]=v, d.update({k: v}), d.k = v with extra misfits on one-row tables; constructors from records / keyword or dict columns '
         'with scalars / rows+headers / header-row form; d[k]=v, del d[k]; d[i], d[k], d[i][k] vs d[k][i], d[k1,k2], d[callable], list(d); '
-        'slices incl. negative bounds and steps (negative too), range indices (ascending, descending down to row 0, stepped, empty, out of range), bool masks, int lists, column lists; d(k=value|callable); relabel / rename prefix, suffix, maps to fresh names, bijective maps among existing columns (swaps, cycles, identity entries, absent columns, chains ending in a fresh name); do; '
+        'slices incl. negative bounds and steps (negative too), range indices (ascending, descending down to row 0, stepped, empty, out of range), bool masks, int lists, column lists; d(k=value|callable); d - key / d - [keys] (substring-related names id/bid, a/ab/name/surname); read / mutate / read-again triples for every (read spelling x in-place mutation spelling) pair on one table object; every read and table-returning call made twice; relabel / rename prefix, suffix, maps to fresh names, bijective maps among existing columns (swaps, cycles, identity entries, absent columns, chains ending in a fresh name); do; '
         'dictable.concat of 0-3 tables, d+None, d+0, 0+d, d+d, d+record; copy) on tables of 0-5 rows x 0-4 columns incl. empty tables and '
         'columns without rows, cells None/int/float/NaN objects/str/datetime; a separate malformed stream (misfit lengths, missing keys, '
         'out-of-range indices, ragged rows, wrong-length masks); plus every single op on every table with <= 2 rows x <= 2 columns over two '
@@ -34,7 +34,7 @@ LEVEL_TEXT = ('machine-checked Coq theorems C01_* for all histories and tables (
 LEVEL_NOTE = 'the model is tied to the source by the differential run only (no translator: the code is dict/list manipulation, not arithmetic)'
 TECHNIQUE = 'Coq refinement proof (data refinement dict-of-lists -> list of records, fold_left induction) + differential correspondence in vm_compute + list-of-records oracle'
 
-NAMES = ['a', 'b', 'c', 'd', 'id', '_x', 'find_a', 'key']      # 'key': Dict.__call__ injects key=<new column> as a default; a column of that name must win
+NAMES = ['a', 'b', 'c', 'd', 'id', '_x', 'find_a', 'key', 'bid', 'name', 'surname', 'ab']     # substring-related names: id/bid, a/ab/name/surname      # 'key': Dict.__call__ injects key=<new column> as a default; a column of that name must win
 
 # ------------------------------------------------------------------ cells
 def cell_py(c, nans):
@@ -119,6 +119,7 @@ def op_coq(o):
         s = 'AddNone' if a == 'none' else 'AddZero' if a in ('zero', 'zerof') else '(AddReg %s)' % nat(a['reg']) if 'reg' in a else '(AddRecs %s)' % clist(rec_coq(x) for x in a['recs']) if 'recs' in a else '(AddRec %s)' % rec_coq(a['rec'])
         return 'OAdd %s %s %s' % (nat(o['dst']), nat(o['r']), s)
     if k == 'copy': return 'OCopy %s %s' % (nat(o['dst']), nat(o['r']))
+    if k == 'sub': return 'OSub %s %s %s' % (nat(o['dst']), nat(o['r']), clist(qs(n) for n in o['ks']))
     raise ValueError(k)
 
 def coq_runner(case): return 'run_c01'
@@ -295,6 +296,9 @@ def ref_step(o, get, conv):
         rec = dict((n, conv(x)) for n, x in a['rec'])
         return 'new', ref_concat([t, Ref(list(rec), [rec] if rec else [])])
     if k == 'copy': return 'new', t.copy()
+    if k == 'sub':          # d - key / d - [keys]: a new table without exactly these columns (absent ones ignored)
+        cs = [c for c in t.cols if c not in o['ks']]
+        return 'new', Ref(cs, [{c: r[c] for c in cs} for r in t.rows] if cs else [])
     raise ValueError(k)
 
 class _NoClaim: pass
@@ -365,6 +369,14 @@ def out_matches(exp, got):
         return isinstance(got, (list, tuple)) and len(exp) == len(got) and all(out_matches(a, b) for a, b in zip(exp, got))
     return same(exp, got)
 
+def canon(k, out, co):
+    if k == 'getrow': return sorted([n, co(x)] for n, x in dict.items(out))
+    if k in ('getcol', 'apply'): return [co(x) for x in out]
+    if k == 'cell': return [co(v) if t == 'v' else ['ERR', v] for t, v in out]
+    if k == 'tuple': return [[co(x) for x in tup] for tup in out]
+    if k == 'iter': return [sorted([n, co(x)] for n, x in dict.items(r)) for r in out]
+    return 'ok'
+
 def describe(o):
     return json.dumps(o, sort_keys=True)
 
@@ -380,73 +392,79 @@ def impl(case):
     for step_no, o in enumerate(case['ops']):
         k = o['op']
         before = [(t, snapshot(t)) for t in {id(t): t for t in regs}.values()]
-        result = None; out = 'ok'; errn = None
-        try:
-            if k == 'new_records': result = dictable(Krecs(o, [[(n, conv(x)) for n, x in r] for r in o['recs']]))
-            elif k == 'new_cols':
-                kv = dict((n, conv(v['S']) if 'S' in v else [conv(x) for x in v['L']]) for n, v in o['kvs'])
-                if o.get('form') == 'mixed':          # dictable(data_dict, **kw): keyword columns first, then the data columns
-                    ks_ = list(kv); sp_ = o.get('split', 0)
-                    result = dictable({K(o, k_): kv[k_] for k_ in ks_[sp_:]}, **{k_: kv[k_] for k_ in ks_[:sp_]})
-                else: result = dictable({K(o, k_): v_ for k_, v_ in kv.items()}) if o.get('form') == 'dict' else dictable(**kv)
-            elif k == 'new_rows':
-                rows = [[conv(x) for x in r] for r in o['rows']]
-                result = dictable([list(o['names'])] + rows) if o['hdr'] else dictable(rows, list(o['names']))
-            elif k == 'set':
-                v = o['v']; val = conv(v['S']) if 'S' in v else [conv(x) for x in v['L']]
-                if o.get('form') == 'update': regs[o['r']].update({K(o, o['key']): val})
-                elif o.get('form') == 'attr' and not o['key'].startswith('_'): setattr(regs[o['r']], o['key'], val)
-                else: regs[o['r']][K(o, o['key'])] = val
-            elif k == 'del':
-                if o.get('form') == 'attr' and not o['key'].startswith('_'): delattr(regs[o['r']], o['key'])
-                else: del regs[o['r']][o['key']]
-            elif k == 'getrow': out = regs[o['r']][o['i']]
-            elif k == 'getcol':
-                d_ = regs[o['r']]      # d.key is the same column when it exists (a missing attribute is an AttributeError / find_ accessor: not used then)
-                out = getattr(d_, o['key']) if o.get('form') == 'attr' and o['key'] in dict.keys(d_) and not o['key'].startswith('_') else d_[o['key']]
-            elif k == 'cell':
-                out = []
-                for f in (lambda d: d[o['i']][o['key']], lambda d: d[o['key']][o['i']]):
-                    try: out.append(('v', f(regs[o['r']])))
-                    except Exception as e: out.append(('e', err_name(e)))
-            elif k == 'tuple': out = regs[o['r']][tuple(o['names'])]
-            elif k == 'apply': out = regs[o['r']][mk_rowfn(o['f'])]
-            elif k == 'iter': out = list(regs[o['r']])
-            elif k == 'slice': result = regs[o['r']][slice(o['a'], o['b'], o.get('s'))]
-            elif k == 'range': result = regs[o['r']][range(o['a'], o['b'], o['s'])]
-            elif k == 'mask': result = regs[o['r']][np.array(o['m']) if o.get('form') == 'np' and o['m'] else list(o['m'])]
-            elif k == 'ints': result = regs[o['r']][np.array(o['idx']) if o.get('form') == 'np' and o['idx'] else list(o['idx'])]
-            elif k == 'proj': result = regs[o['r']][list(o['names'])]
-            elif k == 'call':
-                a = o['arg']
-                val = mk_rowfn(a['f']) if 'f' in a else (conv(a['v']['S']) if 'S' in a['v'] else [conv(x) for x in a['v']['L']])
-                result = regs[o['r']](**{o['key']: val})
-            elif k == 'relabel':
-                sp = o['sp']
-                meth = regs[o['r']].rename if o.get('form') == 'rename' else regs[o['r']].relabel
-                if sp[0] in ('prefix', 'suffix'):
-                    result = meth((lambda k, p=sp[1]: p + k) if sp[0] == 'prefix' else (lambda k, p=sp[1]: k + p)) if o.get('argform') == 'fn' else meth(sp[1])
-                else:
-                    result = meth(dict(map(tuple, sp[1]))) if o.get('argform') == 'dict' else meth(**dict(map(tuple, sp[1])))
-            elif k == 'do':
-                fns_ = [mk_colfn(f_) for f_ in do_fns(o)]; f = fns_[0] if len(fns_) == 1 and o.get('fform') != 'list' else fns_
-                result = regs[o['r']].do(f) if o['ks'] is None else regs[o['r']].do(f, []) if not o['ks'] else regs[o['r']].do(f, list(o['ks'])) if o.get('form') == 'list' else regs[o['r']].do(f, *o['ks'])
-            elif k == 'concat': result = dictable.concat([regs[r] for r in o['srcs']]) if o.get('form') == 'list' else dictable.concat(*[regs[r] for r in o['srcs']])
-            elif k == 'add':
-                a = o['a']
-                other = None if a == 'none' else 0 if a == 'zero' else 0.0 if a == 'zerof' else regs[a['reg']] if 'reg' in a else Krecs(o, [[(n, conv(x)) for n, x in rc] for rc in a['recs']]) if 'recs' in a else dict((K(o, n), conv(x)) for n, x in a['rec'])
-                result = (other + regs[o['r']]) if o.get('radd') and a in ('zero', 'zerof') else (regs[o['r']] + other)
-            elif k == 'copy': result = dictable(regs[o['r']]) if o.get('form') == 'ctor' else regs[o['r']].copy()
-            else: raise RuntimeError('unknown op ' + k)
-        except Exception as e:
-            errn = err_name(e); out = ['ERR', errn]
+        # every read / table-returning call is made TWICE on the same objects: same answer required (in-place ops once)
+        first = None
+        for pass_no in range(1 if k in ('set', 'del') else 2):
+            result = None; out = 'ok'; errn = None
+            try:
+                if k == 'new_records': result = dictable(Krecs(o, [[(n, conv(x)) for n, x in r] for r in o['recs']]))
+                elif k == 'new_cols':
+                    kv = dict((n, conv(v['S']) if 'S' in v else [conv(x) for x in v['L']]) for n, v in o['kvs'])
+                    if o.get('form') == 'mixed':          # dictable(data_dict, **kw): keyword columns first, then the data columns
+                        ks_ = list(kv); sp_ = o.get('split', 0)
+                        result = dictable({K(o, k_): kv[k_] for k_ in ks_[sp_:]}, **{k_: kv[k_] for k_ in ks_[:sp_]})
+                    else: result = dictable({K(o, k_): v_ for k_, v_ in kv.items()}) if o.get('form') == 'dict' else dictable(**kv)
+                elif k == 'new_rows':
+                    rows = [[conv(x) for x in r] for r in o['rows']]
+                    result = dictable([list(o['names'])] + rows) if o['hdr'] else dictable(rows, list(o['names']))
+                elif k == 'set':
+                    v = o['v']; val = conv(v['S']) if 'S' in v else [conv(x) for x in v['L']]
+                    if o.get('form') == 'update': regs[o['r']].update({K(o, o['key']): val})
+                    elif o.get('form') == 'attr' and not o['key'].startswith('_'): setattr(regs[o['r']], o['key'], val)
+                    else: regs[o['r']][K(o, o['key'])] = val
+                elif k == 'del':
+                    if o.get('form') == 'attr' and not o['key'].startswith('_'): delattr(regs[o['r']], o['key'])
+                    else: del regs[o['r']][o['key']]
+                elif k == 'getrow': out = regs[o['r']][o['i']]
+                elif k == 'getcol':
+                    d_ = regs[o['r']]      # d.key is the same column when it exists (a missing attribute is an AttributeError / find_ accessor: not used then)
+                    out = getattr(d_, o['key']) if o.get('form') == 'attr' and o['key'] in dict.keys(d_) and not o['key'].startswith('_') else d_[o['key']]
+                elif k == 'cell':
+                    out = []
+                    for f in (lambda d: d[o['i']][o['key']], lambda d: d[o['key']][o['i']]):
+                        try: out.append(('v', f(regs[o['r']])))
+                        except Exception as e: out.append(('e', err_name(e)))
+                elif k == 'tuple': out = regs[o['r']][tuple(o['names'])]
+                elif k == 'apply': out = regs[o['r']][mk_rowfn(o['f'])]
+                elif k == 'iter': out = list(regs[o['r']])
+                elif k == 'slice': result = regs[o['r']][slice(o['a'], o['b'], o.get('s'))]
+                elif k == 'range': result = regs[o['r']][range(o['a'], o['b'], o['s'])]
+                elif k == 'mask': result = regs[o['r']][np.array(o['m']) if o.get('form') == 'np' and o['m'] else list(o['m'])]
+                elif k == 'ints': result = regs[o['r']][np.array(o['idx']) if o.get('form') == 'np' and o['idx'] else list(o['idx'])]
+                elif k == 'proj': result = regs[o['r']][list(o['names'])]
+                elif k == 'call':
+                    a = o['arg']
+                    val = mk_rowfn(a['f']) if 'f' in a else (conv(a['v']['S']) if 'S' in a['v'] else [conv(x) for x in a['v']['L']])
+                    result = regs[o['r']](**{o['key']: val})
+                elif k == 'relabel':
+                    sp = o['sp']
+                    meth = regs[o['r']].rename if o.get('form') == 'rename' else regs[o['r']].relabel
+                    if sp[0] in ('prefix', 'suffix'):
+                        result = meth((lambda k, p=sp[1]: p + k) if sp[0] == 'prefix' else (lambda k, p=sp[1]: k + p)) if o.get('argform') == 'fn' else meth(sp[1])
+                    else:
+                        result = meth(dict(map(tuple, sp[1]))) if o.get('argform') == 'dict' else meth(**dict(map(tuple, sp[1])))
+                elif k == 'do':
+                    fns_ = [mk_colfn(f_) for f_ in do_fns(o)]; f = fns_[0] if len(fns_) == 1 and o.get('fform') != 'list' else fns_
+                    result = regs[o['r']].do(f) if o['ks'] is None else regs[o['r']].do(f, []) if not o['ks'] else regs[o['r']].do(f, list(o['ks'])) if o.get('form') == 'list' else regs[o['r']].do(f, *o['ks'])
+                elif k == 'concat': result = dictable.concat([regs[r] for r in o['srcs']]) if o.get('form') == 'list' else dictable.concat(*[regs[r] for r in o['srcs']])
+                elif k == 'add':
+                    a = o['a']
+                    other = None if a == 'none' else 0 if a == 'zero' else 0.0 if a == 'zerof' else regs[a['reg']] if 'reg' in a else Krecs(o, [[(n, conv(x)) for n, x in rc] for rc in a['recs']]) if 'recs' in a else dict((K(o, n), conv(x)) for n, x in a['rec'])
+                    result = (other + regs[o['r']]) if o.get('radd') and a in ('zero', 'zerof') else (regs[o['r']] + other)
+                elif k == 'sub': result = regs[o['r']] - (o['ks'][0] if len(o['ks']) == 1 and o.get('form') != 'list' else list(o['ks']))
+                elif k == 'copy': result = dictable(regs[o['r']]) if o.get('form') == 'ctor' else regs[o['r']].copy()
+                else: raise RuntimeError('unknown op ' + k)
+            except Exception as e:
+                errn = err_name(e); out = ['ERR', errn]
+            if pass_no == 0: first = (result, out, errn)
+        second = (result, out, errn); result, out, errn = first
         nanid = {id(v): n for n, v in nans.items()}
         co = lambda x: cell_obs(x, nanid)
         if result is not None and errn is None:
             if not isinstance(result, dictable):
                 viol = viol or 'step %d %s: returned %s, not a table' % (step_no, describe(o), type(result).__name__)
                 result = dictable()
-            regs[o['dst']] = result; keep.append(result)
+            regs[o['dst']] = result; keep.append(result); keep.append(second[0])
         # ---- canonical output
         if errn is None:
             if k == 'getrow': oj = sorted([n, co(x)] for n, x in dict.items(out))
@@ -462,6 +480,14 @@ def impl(case):
         if viol: continue
         # ---- oracle: the property's clauses on the real objects
         here = 'step %d %s' % (step_no, describe(o))
+        if k not in ('set', 'del'):
+            r2, o2, e2 = second
+            if e2 != errn: viol = '%s: the same call made twice answered %s, then %s' % (here, errn or 'ok', e2 or 'ok')
+            elif errn is None and isinstance(result, dictable) and not (isinstance(r2, dictable) and snap_equal(snapshot(result), snapshot(r2))):
+                viol = '%s: the same call made twice returned %s, then %s' % (here, snapshot(result), snapshot(r2) if isinstance(r2, dictable) else r2)
+            elif errn is None and not isinstance(result, dictable) and k in ('getrow', 'getcol', 'cell', 'tuple', 'apply', 'iter') and json.dumps(canon(k, out, co)) != json.dumps(canon(k, o2, co)):
+                viol = '%s: the same call made twice returned %r, then %r' % (here, out, o2)
+            if viol: continue
         for i, t in enumerate(regs):
             w = clauses(t, '%s: register %d' % (here, i))
             if w: viol = w; break
@@ -583,7 +609,7 @@ def gen_op(rng, shadow, malformed):
         r = rng.randrange(NREGS); t = shadow(r)
     n = len(t.rows) if t is not None else rng.randrange(4)
     kind = rng.choice(['new', 'new', 'set', 'set', 'set', 'del', 'getrow', 'getcol', 'cell', 'cell', 'tuple', 'apply', 'iter', 'slice', 'slice', 'range', 'range', 'mask', 'mask',
-                       'ints', 'ints', 'proj', 'call', 'call', 'relabel', 'do', 'concat', 'concat', 'add', 'add', 'copy'])
+                       'ints', 'ints', 'proj', 'call', 'call', 'relabel', 'do', 'concat', 'concat', 'add', 'add', 'copy', 'sub', 'sub'])
     if kind == 'new': return gen_new(rng, dst, malformed)
     if kind == 'set':
         q = rng.random()
@@ -593,6 +619,9 @@ def gen_op(rng, shadow, malformed):
         else: v = {'L': [rcell(rng) for _ in range(n)]}
         if n == 1 and rng.random() < 0.4: v = {'L': [rcell(rng) for _ in range(rng.choice([2, 3, 3, 0]))]}     # a longer column on a ONE-row table
         return {'op': 'set', 'r': r, 'key': rname(rng, t, 0.4), 'v': v, 'form': rng.choice(['item', 'item', 'update', 'update', 'attr'])}
+    if kind == 'sub':
+        ks = [rname(rng, t, 0.85) for _ in range(rng.choice([1, 1, 1, 2, 3, 0]))]
+        return {'op': 'sub', 'dst': dst, 'r': r, 'ks': ks, 'form': rng.choice(['single', 'list'])}
     if kind == 'del': return {'op': 'del', 'r': r, 'key': rname(rng, t, 0.95 if not malformed else 0.5)}
     ri = lambda: rng.randrange(-n - 1, n + 1) if (malformed or n == 0) else rng.randrange(-n, n)
     if kind == 'getrow': return {'op': 'getrow', 'r': r, 'i': ri()}
@@ -846,6 +875,58 @@ def single_ops(names, nrows):
         yield {'op': 'add', 'dst': dst, 'r': r, 'a': a, 'radd': False}
     yield {'op': 'add', 'dst': dst, 'r': r, 'a': 'zero', 'radd': True}
     yield {'op': 'copy', 'dst': dst, 'r': r}
+    for ks in (['a'], ['b'], ['c'], ['ab'], ['ba'], ['a', 'b'], ['b', 'c'], []):
+        yield {'op': 'sub', 'dst': dst, 'r': r, 'ks': ks, 'form': 'single'}
+        yield {'op': 'sub', 'dst': dst, 'r': r, 'ks': ks, 'form': 'list'}
+
+# ---- read / mutate / read again on the SAME table object: every read spelling x every in-place mutation spelling
+def read_ops(rng, cols, n, r=0, dst=1):
+    c0 = cols[0] if cols else 'a'; c1 = cols[-1] if cols else 'b'
+    idx = [rng.randrange(-n, n) for _ in range(rng.choice([1, 2, 3]))] if n else [0]
+    return [{'op': 'ints', 'dst': dst, 'r': r, 'idx': idx}, {'op': 'ints', 'dst': dst, 'r': r, 'idx': idx, 'form': 'np'},
+            {'op': 'ints', 'dst': dst, 'r': r, 'idx': list(range(n))}, {'op': 'range', 'dst': dst, 'r': r, 'a': n - 1, 'b': -1, 's': -1},
+            {'op': 'getrow', 'r': r, 'i': rng.randrange(-n, n) if n else 0}, {'op': 'getcol', 'r': r, 'key': c1}, {'op': 'getcol', 'r': r, 'key': c0, 'form': 'attr'},
+            {'op': 'cell', 'r': r, 'i': 0, 'key': c1}, {'op': 'iter', 'r': r}, {'op': 'tuple', 'r': r, 'names': [c0, c1]},
+            {'op': 'slice', 'dst': dst, 'r': r, 'a': None, 'b': None, 's': rng.choice([None, -1])}, {'op': 'mask', 'dst': dst, 'r': r, 'm': [True] * n},
+            {'op': 'proj', 'dst': dst, 'r': r, 'names': list(cols)}, {'op': 'copy', 'dst': dst, 'r': r}, {'op': 'concat', 'dst': dst, 'srcs': [r, r]},
+            {'op': 'sub', 'dst': dst, 'r': r, 'ks': [], 'form': 'list'}] + \
+           ([{'op': 'apply', 'r': r, 'f': ['ident', c1]}] if c1.isidentifier() else [])
+def mutate_ops(rng, cols, n, r=0):
+    c0 = cols[0] if cols else 'a'; c1 = cols[-1] if cols else 'b'
+    out = []
+    for form in ('item', 'update', 'attr'):
+        out.append({'op': 'set', 'r': r, 'key': c1, 'v': {'L': [rcell(rng) for _ in range(n)]}, 'form': form})        # replace a column
+        out.append({'op': 'set', 'r': r, 'key': 'zz', 'v': {'S': rcell(rng)}, 'form': form})                           # new column
+    out.append({'op': 'set', 'r': r, 'key': c0, 'v': {'L': [rcell(rng) for _ in range(n + 1)]}, 'form': 'item'})         # rejected misfit
+    for form in ('item', 'attr'):
+        out.append({'op': 'del', 'r': r, 'key': c1, 'form': form})
+        out.append({'op': 'del', 'r': r, 'key': c0, 'form': form})
+    return out
+def rmr_cases(rng, kvs_list, frac):
+    out = []
+    for kvs in kvs_list:
+        cols = [k for k, _ in kvs]; n = len(kvs[0][1]['L']) if kvs else 0
+        for rd in read_ops(rng, cols, n):
+            for mu in mutate_ops(rng, cols, n):
+                if frac < 1 and rng.random() > frac: continue
+                ops = [{'op': 'new_cols', 'dst': 0, 'kvs': kvs, 'form': 'kw'}, dict(rd), dict(mu), dict(rd)]
+                if rng.random() < 0.3: ops += [dict(rng.choice(mutate_ops(rng, cols, n))), dict(rd)]
+                out.append({'ops': ops, 'kind': 'rmr'})
+    return out
+
+def gen_sub(rng):
+    """d - key / d - [keys] / del on tables whose column names contain one another (id/bid, a/ab/name/surname)"""
+    fam = rng.choice([['id', 'bid'], ['a', 'ab', 'name', 'surname'], ['id', 'bid', 'a', 'name'], ['a', 'ab'], ['name', 'surname', 'bid']])
+    names = rng.sample(fam, rng.randrange(2, len(fam) + 1)); n = rng.choice([0, 1, 2, 3])
+    ops = [{'op': 'new_cols', 'dst': 0, 'kvs': [[nm, {'L': [rcell(rng) for _ in range(n)]}] for nm in names], 'form': rng.choice(['kw', 'dict'])}]
+    for _ in range(rng.choice([2, 3, 4])):
+        k = rng.random()
+        key = rng.choice(fam + ['names', 'i'])
+        if k < 0.5: ops.append({'op': 'sub', 'dst': rng.choice([1, 2]), 'r': 0, 'ks': [key], 'form': rng.choice(['single', 'single', 'list'])})
+        elif k < 0.75: ops.append({'op': 'sub', 'dst': rng.choice([1, 2]), 'r': 0, 'ks': rng.sample(fam + ['zz'], rng.choice([0, 2, 3])), 'form': 'list'})
+        elif k < 0.9: ops.append({'op': 'del', 'r': rng.choice([1, 2]), 'key': key, 'form': rng.choice(['item', 'attr'])})
+        else: ops.append({'op': 'proj', 'dst': 1, 'r': 0, 'names': [key]})
+    return {'ops': ops, 'kind': 'sub'}
 
 def exhaustive_cases(rng, frac):
     """every single op on every table of <= 2 rows x <= 2 columns over {None, 1}; register 2 holds a fixed second table;
@@ -869,6 +950,14 @@ def gen_cases(rng, tier):
         c = gen_history(rng, length, malformed=(i % 4 == 3)); c['kind'] = 'malformed' if i % 4 == 3 else 'history'
         cases.append(c)
     cases += [gen_keycol(rng) for _ in range(60 if tier == 'quick' else 1500)]
+    cases += [gen_sub(rng) for _ in range(60 if tier == 'quick' else 1500)]
+    # read / mutate / read again: random 1-4 row tables (all pairs) + every table of the small scope (sampled in the quick tier)
+    rt = []
+    for _ in range(2 if tier == 'quick' else 40):
+        names = rng.sample(NAMES + DIGITS, rng.choice([2, 3])); n = rng.choice([1, 2, 3, 4])
+        rt.append([[nm, {'L': [rcell(rng) for _ in range(n)]}] for nm in names])
+    cases += rmr_cases(rng, rt, 1.0)
+    cases += rmr_cases(rng, [kvs for _, kvs in small_tables() if kvs], 0.06 if tier == 'quick' else 1.0)
     big = [gen_big(rng) for _ in range(12 if tier == 'quick' else 300)]
     step_ = max(1, len(cases) // (len(big) + 1))            # spread over the cases files: they are the slow ones inside Coq
     for j, b in enumerate(big): cases.insert(min(len(cases), (j + 1) * step_ + j), b)
@@ -890,7 +979,7 @@ def nontrivial(case, result):
 
 def shape(case):
     k = case.get('kind', 'corpus')
-    return k if k in ('small', 'big', 'keycol') else '%s:len%d' % (k, len(case['ops']))
+    return k if k in ('small', 'big', 'keycol', 'rmr', 'sub') else '%s:len%d' % (k, len(case['ops']))
 
 def shrink(case):
     ops = case['ops']
